@@ -249,9 +249,15 @@ def run_case(case):
                 pool.obj[i] = build.value_from(pool.sch[i], T, v)
             s0 = snapshot(T, pool.obj[i], pool.sch[i])
             b0 = behaviour(pool.obj[i], twin)
+            g0 = snapshot(T, pool.sch[i])
             a = pool.call(name, i, 1)
             s1 = snapshot(T, pool.obj[i], pool.sch[i])
             b1 = behaviour(pool.obj[i], twin)
+            g1 = snapshot(T, pool.sch[i])
+            if g1 != g0:
+                dif = [n for n, (x, y) in zip(('content', 'isValue', 'type', 'tagSet', 'subtypeSpec', 'slots'), zip(g0, g1)) if x != y]
+                F('encode-mutates-schema', name, '%s changed the guiding type / schema object (%s): %s -> %s | %s' % (
+                    name, ','.join(dif), str([g0[0], g0[5]])[:120], str([g1[0], g1[5]])[:120], desc[i]))
             b = pool.call(name, i, 1)
             if a != b:
                 F('encode-repeat', name, '%s twice on the same value gives %s then %s | %s' % (name, str(a)[:80], str(b)[:80], desc[i]))
